@@ -280,6 +280,23 @@ fn vx_bounded_c07_paths() {
             if of != ol && failures.len() < 12 { failures.push(format!("VX-BOUNDED-FAIL LATER {} follower differs from leader:\n   leader   {}\n   follower {}", seq_name(seq), ol, of)); }
             if or != ol && failures.len() < 12 { failures.push(format!("VX-BOUNDED-FAIL LATER {} a node that replays the log later differs from the leader:\n   leader {}\n   replay {}", seq_name(seq), ol, or)); }
         }
+        // ---- one LONG follower batch: the follower path hands a whole replicated batch to the components in one synchronous
+        //      handler run (StateApplyManager::handle, ApplyBatchRequest) — the component actors cannot take anything from their
+        //      mailboxes meanwhile, so 60 entries for one component sit in its mailbox at once (actix' default capacity is 16)
+        {
+            let l = new_set(index[0].clone()).await;
+            let f = new_set(index[1].clone()).await;
+            let r = new_set(index[2].clone()).await;
+            let batch: Vec<ClientRequest> = (0..60usize).map(|i| ClientRequest::TableManagerReq(TableManagerReq::Set {
+                table_name: s("T_USER"), key: format!("batch-user-{:02}", i).into_bytes(), value: format!("value-{}", i).into_bytes(), last_seq_id: None })).collect();
+            for req in batch.iter() { let _ = l.h.apply_log_to_state_machine(req.clone(), &l.index).await; }
+            for req in batch.iter() { let _ = f.h.do_send_log(req.clone(), &f.index); }      // no await in between: one handler run
+            for req in batch.iter() { let _ = r.h.load_log(req.clone(), &r.index).await; }
+            let (ol, of, or) = (observe(&l).await, observe(&f).await, observe(&r).await);
+            checked += 1;
+            if of != ol { failures.push(format!("VX-BOUNDED-FAIL BATCH 60 table writes in one replicated batch: follower differs from leader:\n   leader   {}\n   follower {}", &ol[..ol.len().min(300)], &of[..of.len().min(300)])); }
+            if or != ol { failures.push(format!("VX-BOUNDED-FAIL BATCH 60 table writes replayed: replay differs from leader:\n   leader {}\n   replay {}", &ol[..ol.len().min(300)], &or[..or.len().min(300)])); }
+        }
         // the index-manager variants, once
         let l = new_set(index[0].clone()).await;
         let f = new_set(index[1].clone()).await;
